@@ -19,6 +19,7 @@ import (
 	"testing"
 	"time"
 
+	"github.com/VKCOM/statshouse-go"
 	"github.com/myxo/gofs"
 	pgrand "pgregory.net/rand"
 
@@ -215,6 +216,13 @@ func w5Run(t *testing.T, r *verifsim.Run) {
 	start := time.Now()
 	defer func() { r.SimNanos = int64(time.Since(start)) }()
 
+	if c.Intn(4, "engine_role") == 3 {
+		if err := os.MkdirAll(w.dir, 0755); err != nil {
+			panic(err)
+		}
+		w5ReplicaRun(r, w.dir)
+		return
+	}
 	w.mode = []DurabilityMode{WaitCommit, NoWaitCommit}[c.Intn(2, "mode")]
 	w.every = []time.Duration{time.Second, 100 * time.Millisecond, 5 * time.Second}[c.Intn(3, "commit_every")]
 	nClients := 1 + c.Intn(3, "clients")
@@ -893,5 +901,6 @@ func (w *w5World) verifyImage(img *w5Image, idx int) bool {
 }
 
 func TestVerifW5(t *testing.T) {
+	_ = statshouse.Close() // stop the metrics client's real timer goroutine: nothing listens in the sandbox
 	verifsim.Main(t, &verifsim.World{Name: "w5_sqlite", Props: []string{"C17"}, Exec: w5Exec})
 }
